@@ -134,6 +134,11 @@ def variants(inv, rnd, tier):
                     yield {}, [ct, 1, rate, ty], [], 'baudrate grid'
     if inv.callid == 26:
         from harness.callreg_ext import a_io
+        for did in (0x0177, 0x0178):
+            for masks in ([(0, True), (2, True)], [(0, True), (1, True), (2, True)], [(2, True), (4, True), (3, True)], [(0, True), (2, False)],
+                          [(0, True), (1, True)], [(1, True), (2, True)], [(0, True), (0, True)], [(4, True), (0, True), (1, True)]):
+                a, b = a_io(did, 3, b'\x11\x22', masks)
+                yield {}, a, b, 'io overlapping masks'
         for did in (0x0132, 0x0456, 0x0155, 0x0999, 0x10000, -1):
             for cp in (None, -1, 0, 3, 4):
                 for values in (None, b'\x11\x22', b'\x11', b''):
